@@ -44,4 +44,41 @@ theorem takeHex_fmtHex (w n : Nat) (rest : List Char) (hw : 0 < w) (h : n < 16 ^
     exact List.drop_left' hl
   rw [h2, h3, ofHex_fmtHex w n hw h]
 
+
+theorem hexVal_lt (c : Char) (v : Nat) (h : hexVal c = some v) : v < 16 := by
+  unfold hexVal at h
+  simp only at h
+  split at h
+  · injection h with h; omega
+  · split at h
+    · injection h with h; omega
+    · split at h
+      · injection h with h; omega
+      · cases h
+
+theorem ofHexAux_lt (s : List Char) (acc r : Nat) (h : ofHexAux s acc = some r) :
+    r < (acc + 1) * 16 ^ s.length := by
+  induction s generalizing acc with
+  | nil => simp [ofHexAux] at h; subst h; simp
+  | cons c cs ih =>
+    simp only [ofHexAux] at h
+    split at h
+    · rename_i v hv
+      have hv16 := hexVal_lt c v hv
+      have := ih _ h
+      simp only [List.length_cons, Nat.pow_succ]
+      have h2 : (acc * 16 + v + 1) * 16 ^ cs.length ≤ ((acc + 1) * 16) * 16 ^ cs.length :=
+        Nat.mul_le_mul_right _ (by omega)
+      calc r < (acc * 16 + v + 1) * 16 ^ cs.length := this
+        _ ≤ ((acc + 1) * 16) * 16 ^ cs.length := h2
+        _ = (acc + 1) * (16 ^ cs.length * 16) := by rw [Nat.mul_assoc, Nat.mul_comm 16]
+    · cases h
+
+theorem ofHex_lt (s : List Char) (n : Nat) (h : ofHex s = some n) : n < 16 ^ s.length := by
+  unfold ofHex at h
+  split at h
+  · cases h
+  · have := ofHexAux_lt s 0 n h
+    simpa using this
+
 end Ramses
